@@ -586,6 +586,107 @@ theorem each_violation_rejected (env : Env) (f : CertFacts)
   · have := c.notBefore; omega
   · have := c.notAfter; omega
 
+/-! ### Statement level: what is flagged, and what is not -/
+
+/-- The violations the property statement lists, over the decoded facts (the hypothesis of
+`each_violation_rejected`). -/
+def StatementViolation (env : Env) (f : CertFacts) : Prop :=
+  f.version ≠ 2 ∨ f.isCa = true ∨ f.issuerEqSubject = true ∨ f.sigAlg = .other ∨
+  (f.sigAlg = .pss ∧ ∀ hh, f.pss = .params hh true → hh = .other) ∨
+  (f.spkiAlg = .ec ∧ f.ecParams ≠ .p256 ∧ f.ecParams ≠ .p384 ∧ f.ecParams ≠ .p521) ∨
+  ((f.spkiAlg = .rsa ∨ f.spkiAlg = .rsapss) ∧ f.rsaBits < 2048) ∨
+  f.issuerUid = true ∨ f.subjectUid = true ∨
+  (∀ x ∈ f.exts, kuUsable x = false) ∨ (∃ x ∈ f.exts, kuCertSign x = true) ∨
+  f.eku = .none ∨ f.eku = .err ∨
+  (∃ e, f.eku = .some e ∧ (e.any = true ∨ hasAllowedEku env.allowedEkus e = false ∨ badEkuSet e = true)) ∨
+  (∃ x ∈ f.exts, unhandledCritical x = true) ∨
+  signingTime env < f.notBefore ∨ f.notAfter < signingTime env
+
+/-- What the code rejects *beyond* the statement's list: bytes that are not a certificate, a
+repeated extension, an RSA key that does not decode, no authority key identifier. -/
+def StructuralDefect (f : CertFacts) : Prop :=
+  f.parses = false ∨ f.dupExt = true ∨
+  ((f.spkiAlg = .rsa ∨ f.spkiAlg = .rsapss) ∧ f.rsaKeyOk = false) ∨
+  (∀ x ∈ f.exts, isAki x = false)
+
+/-- **Flagged ⇔ violating**: the check rejects a certificate exactly when it violates a rule of
+the statement or has one of the four structural defects — so a certificate free of both is never
+flagged, and `Conforming` (the code's notion) is nothing more than that. -/
+theorem accepted_iff_no_violation (env : Env) (f : CertFacts) :
+    checkEndEntity env f = .ok ↔ ¬ StatementViolation env f ∧ ¬ StructuralDefect f := by
+  constructor
+  · intro hok
+    have c := (accepted_iff_conforming env f).1 hok
+    refine ⟨fun hv => ?_, ?_⟩
+    · have := each_violation_rejected env f hv
+      rw [hok] at this; cases this
+    · rintro (h | h | ⟨hk, h⟩ | h)
+      · rw [c.parses] at h; cases h
+      · rw [c.noDuplicateExt] at h; cases h
+      · rw [(c.rsa hk).1] at h; cases h
+      · obtain ⟨x, hx, ha⟩ := c.aki; rw [h x hx] at ha; cases ha
+  · rintro ⟨hnv, hns⟩
+    rw [accepted_iff_conforming]
+    simp only [StatementViolation, not_or] at hnv
+    obtain ⟨n1, n2, n3, n4, n5, n6, n7, n8, n9, n10, n11, n12, n13, n14, n15, n16, n17⟩ := hnv
+    simp only [StructuralDefect, not_or] at hns
+    obtain ⟨s1, s2, s3, s4⟩ := hns
+    have b2t : ∀ {b : Bool}, ¬ b = true → b = false := by intro b h; cases b <;> simp_all
+    have b2f : ∀ {b : Bool}, ¬ b = false → b = true := by intro b h; cases b <;> simp_all
+    refine
+      { parses := b2f s1
+        v3 := Classical.byContradiction n1
+        notBefore := by omega
+        notAfter := by omega
+        sigAlg := n4
+        pss := ?_
+        curve := ?_
+        rsa := ?_
+        noDuplicateExt := b2t s2
+        notSelfSigned := b2t n3
+        noIssuerUid := b2t n8
+        noSubjectUid := b2t n9
+        notCa := b2t n2
+        eku := ?_
+        noCertSign := ?_
+        aki := ?_
+        keyUsage := ?_
+        noUnhandledCritical := ?_ }
+    · intro hs
+      apply Classical.byContradiction
+      intro hne
+      exact n5 ⟨hs, fun hh hp => Classical.byContradiction fun hno => hne ⟨hh, hp, hno⟩⟩
+    · intro hs
+      cases he : f.ecParams <;> simp_all
+    · intro hk
+      refine ⟨b2f fun h => s3 ⟨hk, h⟩, ?_⟩
+      have : ¬ f.rsaBits < 2048 := fun h => n7 ⟨hk, h⟩
+      omega
+    · cases he : f.eku with
+      | none => exact absurd he n12
+      | err => exact absurd he n13
+      | some e =>
+        refine ⟨e, rfl, b2t fun h => n14 ⟨e, he, Or.inl h⟩, b2f fun h => n14 ⟨e, he, Or.inr (Or.inl h)⟩,
+          b2t fun h => n14 ⟨e, he, Or.inr (Or.inr h)⟩⟩
+    · intro x hx
+      exact b2t fun h => n11 ⟨x, hx, h⟩
+    · apply Classical.byContradiction
+      intro hne
+      exact s4 fun x hx => b2t fun h => hne ⟨x, hx, h⟩
+    · apply Classical.byContradiction
+      intro hne
+      exact n10 fun x hx => b2t fun h => hne ⟨x, hx, h⟩
+    · intro x hx
+      exact b2t fun h => n15 ⟨x, hx, h⟩
+
+/-- **A certificate without a statement violation and without structural defect is never
+flagged**, end to end: nothing is added to the failure codes and the state is decided by trust. -/
+theorem unflagged_of_no_violation (env : Env) (f : CertFacts) (hv : ¬ StatementViolation env f)
+    (hs : ¬ StructuralDefect f) (mode : Mode) :
+    checkEndEntity env f = .ok ∧ profileFailure mode (checkEndEntity env f) = [] := by
+  have h := (accepted_iff_no_violation env f).2 ⟨hv, hs⟩
+  exact ⟨h, by rw [h]; rfl⟩
+
 /-- A conforming, trusted, correctly signed credential yields Trusted; untrusted yields Valid
 (no later failures): the profile check contributes nothing. -/
 theorem conforming_state (env : Env) (f : CertFacts) (h : Conforming env f) (trust : Trust) :
@@ -593,6 +694,532 @@ theorem conforming_state (env : Env) (f : CertFacts) (h : Conforming env f) (tru
       (match trust with | .trusted => .trusted | .untrusted => .valid) := by
   rw [conforming_accepted env f h]
   cases trust <;> decide
+
+/-! ### Which failure is reported: one theorem per log statement
+
+Each takes a conforming certificate, changes exactly the fact(s) one rule looks at, and gives the
+exact outcome — error kind, status code and the log statement that fires. A reordering of the
+checks that lets another rule mask this one, a wrong status code or a wrong error kind falsifies
+the corresponding theorem (and the differential run, which compares the same triple). -/
+
+theorem conforming_blocks (env : Env) (f : CertFacts) (c : Conforming env f) :
+    headCheck env f = none ∧ pssCheck f = none ∧ curveCheck f = none ∧ rsaCheck f = none ∧
+      idCheck f = none ∧ tailCheck env f = none := by
+  have h := ((checkEndEntity_ok_iff_inner env f).1 (conforming_accepted env f c)).1
+  unfold checkInner at h
+  simpa only [Option.or_eq_none_iff] using h
+
+/-- The outcome of the public function is the first rejection of the inner one; a rejection
+that returned without logging is reported by the wrapper as `signingCredential.invalid`. -/
+theorem checkEndEntity_of_inner (env : Env) (f : CertFacts) (r : Rej) (h : checkInner env f = some r) :
+    checkEndEntity env f =
+      match r.logged with
+      | some (c, rl) => .err r.kind c rl
+      | none => .err r.kind .invalid .unlogged := by
+  unfold checkEndEntity checkProfile
+  rw [h]
+  obtain ⟨k, l⟩ := r
+  cases l with
+  | none => rfl
+  | some cr => obtain ⟨c, rl⟩ := cr; rfl
+
+/-- **No silent rejection**: whatever the inner check rejects — with or without a log statement
+of its own — the public function reports the same error kind together with a
+`signingCredential.*` failure; the wrapper's catch-all supplies `signingCredential.invalid` exactly
+for the rejections that logged nothing. -/
+theorem silent_rejection_still_logged (env : Env) (f : CertFacts) (r : Rej)
+    (h : checkInner env f = some r) :
+    ∃ c rl, checkEndEntity env f = .err r.kind c rl ∧
+      (r.logged = some (c, rl) ∨ (r.logged = none ∧ c = .invalid ∧ rl = .unlogged)) := by
+  rw [checkEndEntity_of_inner env f r h]
+  obtain ⟨k, l⟩ := r
+  cases l with
+  | none => exact ⟨.invalid, .unlogged, rfl, Or.inr ⟨rfl, rfl, rfl⟩⟩
+  | some cr => obtain ⟨c, rl⟩ := cr; exact ⟨c, rl, rfl, Or.inl rfl⟩
+
+/-! Block-level facts for an arbitrary certificate `g`, hypotheses on its fields only. -/
+
+theorem inner_of_head (env : Env) (g : CertFacts) (r : Rej) (h : headCheck env g = some r) :
+    checkInner env g = some r := by
+  unfold checkInner; rw [h]; rfl
+
+theorem inner_of_pss (env : Env) (g : CertFacts) (r : Rej) (h1 : headCheck env g = none)
+    (h : pssCheck g = some r) : checkInner env g = some r := by
+  unfold checkInner; rw [h1, h]; rfl
+
+theorem inner_of_curve (env : Env) (g : CertFacts) (r : Rej) (h1 : headCheck env g = none)
+    (h2 : pssCheck g = none) (h : curveCheck g = some r) : checkInner env g = some r := by
+  unfold checkInner; rw [h1, h2, h]; rfl
+
+theorem inner_of_rsa (env : Env) (g : CertFacts) (r : Rej) (h1 : headCheck env g = none)
+    (h2 : pssCheck g = none) (h3 : curveCheck g = none) (h : rsaCheck g = some r) :
+    checkInner env g = some r := by
+  unfold checkInner; rw [h1, h2, h3, h]; rfl
+
+theorem inner_of_id (env : Env) (g : CertFacts) (r : Rej) (h1 : headCheck env g = none)
+    (h2 : pssCheck g = none) (h3 : curveCheck g = none) (h4 : rsaCheck g = none)
+    (h : idCheck g = some r) : checkInner env g = some r := by
+  unfold checkInner; rw [h1, h2, h3, h4, h]; rfl
+
+theorem inner_of_tail (env : Env) (g : CertFacts) (h1 : headCheck env g = none)
+    (h2 : pssCheck g = none) (h3 : curveCheck g = none) (h4 : rsaCheck g = none)
+    (h5 : idCheck g = none) : checkInner env g = tailCheck env g := by
+  unfold checkInner; rw [h1, h2, h3, h4, h5]; rfl
+
+theorem headCheck_none_of (env : Env) (g : CertFacts) (hp : g.parses = true) (hv : g.version = 2)
+    (hnb : g.notBefore ≤ signingTime env) (hna : signingTime env ≤ g.notAfter) (hs : g.sigAlg ≠ .other) :
+    headCheck env g = none := by
+  rw [headCheck_none_iff]
+  exact ⟨hp, hv, by simp [validAt, hnb, hna], hs⟩
+
+theorem ekuGood_ok_of (env : Env) (g : CertFacts) (e : Eku) (he : g.eku = .some e) (h1 : e.any = false)
+    (h2 : hasAllowedEku env.allowedEkus e = true) (h3 : badEkuSet e = false) :
+    ekuGood env g = .ok true := by
+  unfold ekuGood; rw [he]; simp [h1, h2, h3]
+
+theorem extPart_certSign (g : CertFacts) (hca : g.isCa = false) (b : Bool)
+    (h : ∃ x ∈ g.exts, kuCertSign x = true) :
+    extPart g b = some (rej .invalidCertificate .invalid .kuCertSign) := by
+  unfold extPart
+  rw [extLoop_spec, hca]
+  have hany : (g.exts.any fun x => kuCertSign x && !false) = true := by
+    obtain ⟨x, hx, hk⟩ := h
+    exact List.any_eq_true.2 ⟨x, hx, by simp [hk]⟩
+  rw [hany]; rfl
+
+/-- The extension part for a non-CA certificate whose list asserts no keyCertSign, in closed form. -/
+theorem extPart_nonCa (g : CertFacts) (hca : g.isCa = false) (b : Bool)
+    (hcs : g.exts.any kuCertSign = false) :
+    extPart g b =
+      if g.exts.any isAki && g.exts.any kuUsable && b && !g.exts.any unhandledCritical then none
+      else some (rej .invalidCertificate .invalid .params) := by
+  unfold extPart
+  rw [extLoop_spec, hca]
+  simp only [Bool.not_false, Bool.and_true, hcs, Bool.false_eq_true, if_false, finalFlags, hca]
+  cases g.exts.any isAki <;> cases g.exts.any kuUsable <;> cases b <;>
+    cases g.exts.any unhandledCritical <;> simp
+
+theorem extPart_params (g : CertFacts) (hca : g.isCa = false) (b : Bool)
+    (hcs : ∀ x ∈ g.exts, kuCertSign x = false)
+    (h : b = false ∨ (∀ x ∈ g.exts, isAki x = false) ∨ (∀ x ∈ g.exts, kuUsable x = false) ∨
+      (∃ x ∈ g.exts, unhandledCritical x = true)) :
+    extPart g b = some (rej .invalidCertificate .invalid .params) := by
+  rw [extPart_nonCa g hca b ((not_any_iff _ _).2 hcs)]
+  rcases h with h | h | h | h
+  · simp [h]
+  · have : g.exts.any isAki = false := (not_any_iff _ _).2 h
+    simp [this]
+  · have : g.exts.any kuUsable = false := (not_any_iff _ _).2 h
+    simp [this]
+  · have : g.exts.any unhandledCritical = true := (any_iff _ _).2 h
+    simp [this]
+
+theorem tailCheck_of_ekuGood (env : Env) (g : CertFacts) (b : Bool) (h : ekuGood env g = .ok b) :
+    tailCheck env g = extPart g b := by
+  unfold tailCheck; rw [h]
+
+theorem tailCheck_of_ekuErr (env : Env) (g : CertFacts) (r : Rej) (h : ekuGood env g = .error r) :
+    tailCheck env g = some r := by
+  unfold tailCheck; rw [h]
+
+/-! The single-violation theorems. -/
+
+theorem unparseable_only_code (env : Env) (f : CertFacts) :
+    checkEndEntity env { f with parses := false } = .err .invalidCertificate .invalid .parse := by
+  rw [checkEndEntity_of_inner env _ (rej .invalidCertificate .invalid .parse)]
+  · rfl
+  · exact inner_of_head _ _ _ (by simp [headCheck])
+
+theorem not_v3_only_code (env : Env) (f : CertFacts) (c : Conforming env f) (v : Nat) (hv : v ≠ 2) :
+    checkEndEntity env { f with version := v } =
+      .err .invalidCertificateVersion .invalid .version := by
+  rw [checkEndEntity_of_inner env _ (rej .invalidCertificateVersion .invalid .version)]
+  · rfl
+  · apply inner_of_head
+    have hp : ({ f with version := v } : CertFacts).parses = true := c.parses
+    unfold headCheck
+    rw [hp]
+    simp [hv]
+
+theorem headCheck_algorithm_of (env : Env) (g : CertFacts) (hp : g.parses = true) (hv : g.version = 2)
+    (hnb : g.notBefore ≤ signingTime env) (hna : signingTime env ≤ g.notAfter) (hs : g.sigAlg = .other) :
+    headCheck env g = some (rej .unsupportedAlgorithm .invalid .algorithm) := by
+  have hva : validAt g (signingTime env) = true := by simp [validAt, hnb, hna]
+  unfold headCheck
+  rw [hp, hv, hva, hs]
+  rfl
+
+theorem signature_algorithm_only_code (env : Env) (f : CertFacts) (c : Conforming env f) :
+    checkEndEntity env { f with sigAlg := .other } =
+      .err .unsupportedAlgorithm .invalid .algorithm := by
+  rw [checkEndEntity_of_inner env _ (rej .unsupportedAlgorithm .invalid .algorithm)]
+  · rfl
+  · exact inner_of_head _ _ _
+      (headCheck_algorithm_of env { f with sigAlg := .other } c.parses c.v3 c.notBefore c.notAfter rfl)
+
+/-- The head block passes for a conforming certificate whose signature algorithm is replaced by
+another accepted one. -/
+theorem headCheck_with_sigAlg (env : Env) (f : CertFacts) (c : Conforming env f) (a : SigAlg) (p : Pss)
+    (ha : a ≠ .other) : headCheck env { f with sigAlg := a, pss := p } = none :=
+  headCheck_none_of env _ c.parses c.v3 c.notBefore c.notAfter ha
+
+theorem pss_mismatch_only_code (env : Env) (f : CertFacts) (c : Conforming env f) (h : Hash) :
+    checkEndEntity env { f with sigAlg := .pss, pss := .params h false } =
+      .err .invalidCertificate .invalid .pssMismatch := by
+  rw [checkEndEntity_of_inner env _ (rej .invalidCertificate .invalid .pssMismatch)]
+  · rfl
+  · exact inner_of_pss _ _ _ (headCheck_with_sigAlg env f c .pss _ (by decide)) (by simp [pssCheck])
+
+theorem pss_hash_only_code (env : Env) (f : CertFacts) (c : Conforming env f) :
+    checkEndEntity env { f with sigAlg := .pss, pss := .params .other true } =
+      .err .invalidCertificate .invalid .pssHash := by
+  rw [checkEndEntity_of_inner env _ (rej .invalidCertificate .invalid .pssHash)]
+  · rfl
+  · exact inner_of_pss _ _ _ (headCheck_with_sigAlg env f c .pss _ (by decide))
+      (by simp [pssCheck, hashMandatory])
+
+theorem pss_params_missing_only_code (env : Env) (f : CertFacts) (c : Conforming env f) :
+    checkEndEntity env { f with sigAlg := .pss, pss := .absent } =
+      .err .invalidCertificate .invalid .pssParamsMissing := by
+  rw [checkEndEntity_of_inner env _ (rej .invalidCertificate .invalid .pssParamsMissing)]
+  · rfl
+  · exact inner_of_pss _ _ _ (headCheck_with_sigAlg env f c .pss _ (by decide)) (by simp [pssCheck])
+
+/-- RSASSA-PSS parameters the code cannot decode: rejected by a bare `?`, reported by the wrapper. -/
+theorem pss_malformed_only_code (env : Env) (f : CertFacts) (c : Conforming env f) :
+    checkEndEntity env { f with sigAlg := .pss, pss := .malformed } =
+      .err .invalidCertificate .invalid .unlogged := by
+  rw [checkEndEntity_of_inner env _ (silent .invalidCertificate)]
+  · rfl
+  · exact inner_of_pss _ _ _ (headCheck_with_sigAlg env f c .pss _ (by decide)) (by simp [pssCheck])
+
+theorem curve_only_code (env : Env) (f : CertFacts) (c : Conforming env f) :
+    checkEndEntity env { f with spkiAlg := .ec, ecParams := .other } =
+      .err .invalidCertificate .invalid .curve := by
+  obtain ⟨h1, h2, _, _, _, _⟩ := conforming_blocks env f c
+  rw [checkEndEntity_of_inner env _ (rej .invalidCertificate .invalid .curve)]
+  · rfl
+  · exact inner_of_curve _ _ _ h1 h2 (by simp [curveCheck, curveAccepted])
+
+/-- EC key without (or with non-OID) curve parameters: bare `return Err`, reported by the wrapper. -/
+theorem curve_params_undecodable_only_code (env : Env) (f : CertFacts) (c : Conforming env f)
+    (e : EcParams) (he : e = .absent ∨ e = .notOid) :
+    checkEndEntity env { f with spkiAlg := .ec, ecParams := e } =
+      .err .invalidCertificate .invalid .unlogged := by
+  obtain ⟨h1, h2, _, _, _, _⟩ := conforming_blocks env f c
+  rw [checkEndEntity_of_inner env _ (silent .invalidCertificate)]
+  · rfl
+  · exact inner_of_curve _ _ _ h1 h2 (by rcases he with rfl | rfl <;> simp [curveCheck])
+
+theorem short_rsa_key_only_code (env : Env) (f : CertFacts) (c : Conforming env f) (a : SpkiAlg)
+    (ha : a = .rsa ∨ a = .rsapss) (n : Nat) (hn : n < 2048) :
+    checkEndEntity env { f with spkiAlg := a, rsaKeyOk := true, rsaBits := n } =
+      .err .invalidCertificate .invalid .rsaBits := by
+  obtain ⟨h1, h2, _, _, _, _⟩ := conforming_blocks env f c
+  rw [checkEndEntity_of_inner env _ (rej .invalidCertificate .invalid .rsaBits)]
+  · rfl
+  · exact inner_of_rsa _ _ _ h1 h2 (by rcases ha with rfl | rfl <;> simp [curveCheck])
+      (by rcases ha with rfl | rfl <;> simp [rsaCheck, hn])
+
+/-- RSA key whose `subjectPublicKey` does not decode: `map_err(..)?`, reported by the wrapper. -/
+theorem rsa_key_undecodable_only_code (env : Env) (f : CertFacts) (c : Conforming env f) (a : SpkiAlg)
+    (ha : a = .rsa ∨ a = .rsapss) :
+    checkEndEntity env { f with spkiAlg := a, rsaKeyOk := false } =
+      .err .invalidCertificate .invalid .unlogged := by
+  obtain ⟨h1, h2, _, _, _, _⟩ := conforming_blocks env f c
+  rw [checkEndEntity_of_inner env _ (silent .invalidCertificate)]
+  · rfl
+  · exact inner_of_rsa _ _ _ h1 h2 (by rcases ha with rfl | rfl <;> simp [curveCheck])
+      (by rcases ha with rfl | rfl <;> simp [rsaCheck])
+
+theorem duplicate_extension_only_code (env : Env) (f : CertFacts) (c : Conforming env f) :
+    checkEndEntity env { f with dupExt := true } =
+      .err .invalidCertificate .invalid .duplicateExt := by
+  obtain ⟨h1, h2, h3, h4, _, _⟩ := conforming_blocks env f c
+  rw [checkEndEntity_of_inner env _ (rej .invalidCertificate .invalid .duplicateExt)]
+  · rfl
+  · exact inner_of_id _ _ _ h1 h2 h3 h4 (by simp [idCheck])
+
+theorem self_signed_only_code (env : Env) (f : CertFacts) (c : Conforming env f) :
+    checkEndEntity env { f with issuerEqSubject := true } =
+      .err .selfSignedCertificate .invalid .selfSigned := by
+  obtain ⟨h1, h2, h3, h4, _, _⟩ := conforming_blocks env f c
+  rw [checkEndEntity_of_inner env _ (rej .selfSignedCertificate .invalid .selfSigned)]
+  · rfl
+  · refine inner_of_id env { f with issuerEqSubject := true } _ h1 h2 h3 h4 ?_
+    have hd : ({ f with issuerEqSubject := true } : CertFacts).dupExt = false := c.noDuplicateExt
+    unfold idCheck
+    rw [hd]
+    rfl
+
+theorem unique_id_only_code (env : Env) (f : CertFacts) (c : Conforming env f) (i s : Bool)
+    (h : i = true ∨ s = true) :
+    checkEndEntity env { f with issuerUid := i, subjectUid := s } =
+      .err .invalidCertificate .invalid .uniqueId := by
+  obtain ⟨h1, h2, h3, h4, _, _⟩ := conforming_blocks env f c
+  rw [checkEndEntity_of_inner env _ (rej .invalidCertificate .invalid .uniqueId)]
+  · rfl
+  · refine inner_of_id env { f with issuerUid := i, subjectUid := s } _ h1 h2 h3 h4 ?_
+    have hd : ({ f with issuerUid := i, subjectUid := s } : CertFacts).dupExt = false := c.noDuplicateExt
+    have hs : ({ f with issuerUid := i, subjectUid := s } : CertFacts).issuerEqSubject = false := c.notSelfSigned
+    unfold idCheck
+    rw [hd, hs]
+    rcases h with rfl | rfl <;> simp
+
+/-- Everything before the EKU block passes for a conforming certificate whose EKU / extension
+list is replaced. -/
+theorem checkInner_with_tail (env : Env) (f : CertFacts) (c : Conforming env f) (e : EkuExt) (es : List Ext) :
+    checkInner env { f with eku := e, exts := es } = tailCheck env { f with eku := e, exts := es } := by
+  obtain ⟨h1, h2, h3, h4, h5, _⟩ := conforming_blocks env f c
+  exact inner_of_tail _ _ h1 h2 h3 h4 h5
+
+theorem eku_any_only_code (env : Env) (f : CertFacts) (c : Conforming env f) (e : Eku) (h : e.any = true) :
+    checkEndEntity env { f with eku := .some e } = .err .invalidCertificate .invalid .ekuAny := by
+  rw [checkEndEntity_of_inner env _ (rej .invalidCertificate .invalid .ekuAny)]
+  · rfl
+  · rw [checkInner_with_tail env f c (.some e) f.exts]
+    exact tailCheck_of_ekuErr _ _ _ (by simp [ekuGood, h])
+
+theorem eku_not_accepted_only_code (env : Env) (f : CertFacts) (c : Conforming env f) (e : Eku)
+    (h : e.any = false) (hn : hasAllowedEku env.allowedEkus e = false) :
+    checkEndEntity env { f with eku := .some e } = .err .invalidCertificate .invalid .ekuMissing := by
+  rw [checkEndEntity_of_inner env _ (rej .invalidCertificate .invalid .ekuMissing)]
+  · rfl
+  · rw [checkInner_with_tail env f c (.some e) f.exts]
+    exact tailCheck_of_ekuErr _ _ _ (by simp [ekuGood, h, hn])
+
+theorem eku_set_only_code (env : Env) (f : CertFacts) (c : Conforming env f) (e : Eku)
+    (h : e.any = false) (ha : hasAllowedEku env.allowedEkus e = true) (hb : badEkuSet e = true) :
+    checkEndEntity env { f with eku := .some e } = .err .invalidCertificate .invalid .ekuSet := by
+  rw [checkEndEntity_of_inner env _ (rej .invalidCertificate .invalid .ekuSet)]
+  · rfl
+  · rw [checkInner_with_tail env f c (.some e) f.exts]
+    exact tailCheck_of_ekuErr _ _ _ (by simp [ekuGood, h, ha, hb])
+
+/-- Duplicate / undecodable EKU extension: `map_err(..)?`, reported by the wrapper. -/
+theorem eku_undecodable_only_code (env : Env) (f : CertFacts) (c : Conforming env f) :
+    checkEndEntity env { f with eku := .err } = .err .invalidCertificate .invalid .unlogged := by
+  rw [checkEndEntity_of_inner env _ (silent .invalidCertificate)]
+  · rfl
+  · rw [checkInner_with_tail env f c .err f.exts]
+    exact tailCheck_of_ekuErr _ _ _ (by simp [ekuGood])
+
+/-- EKU extension absent on a non-CA certificate. -/
+theorem eku_missing_only_code (env : Env) (f : CertFacts) (c : Conforming env f) :
+    checkEndEntity env { f with eku := .none } = .err .invalidCertificate .invalid .params := by
+  rw [checkEndEntity_of_inner env _ (rej .invalidCertificate .invalid .params)]
+  · rfl
+  · rw [checkInner_with_tail env f c .none f.exts]
+    have hg : ekuGood env { f with eku := .none } = .ok false := by
+      have hca : ({ f with eku := EkuExt.none } : CertFacts).isCa = false := c.notCa
+      unfold ekuGood
+      rw [hca]
+    rw [tailCheck_of_ekuGood _ _ _ hg]
+    exact extPart_params { f with eku := .none } c.notCa false c.noCertSign (Or.inl rfl)
+
+/-- keyCertSign asserted by some keyUsage extension of a non-CA certificate — whatever else the
+extension list holds. -/
+theorem key_cert_sign_only_code (env : Env) (f : CertFacts) (c : Conforming env f) (es : List Ext)
+    (h : ∃ x ∈ es, kuCertSign x = true) :
+    checkEndEntity env { f with exts := es } = .err .invalidCertificate .invalid .kuCertSign := by
+  obtain ⟨e, he, h1, h2, h3⟩ := c.eku
+  rw [checkEndEntity_of_inner env _ (rej .invalidCertificate .invalid .kuCertSign)]
+  · rfl
+  · have ht : checkInner env { f with exts := es } = tailCheck env { f with exts := es } :=
+      checkInner_with_tail env f c f.eku es
+    rw [ht, tailCheck_of_ekuGood _ _ _ (ekuGood_ok_of env { f with exts := es } e he h1 h2 h3)]
+    exact extPart_certSign { f with exts := es } c.notCa true h
+
+/-- The extension list of a non-CA certificate lacks an authority key identifier, or a keyUsage
+with a usable bit, or carries an unhandled critical extension (and asserts no keyCertSign):
+"certificate params incorrect". -/
+theorem extension_flags_only_code (env : Env) (f : CertFacts) (c : Conforming env f) (es : List Ext)
+    (hcs : ∀ x ∈ es, kuCertSign x = false)
+    (h : (∀ x ∈ es, isAki x = false) ∨ (∀ x ∈ es, kuUsable x = false) ∨ (∃ x ∈ es, unhandledCritical x = true)) :
+    checkEndEntity env { f with exts := es } = .err .invalidCertificate .invalid .params := by
+  obtain ⟨e, he, h1, h2, h3⟩ := c.eku
+  rw [checkEndEntity_of_inner env _ (rej .invalidCertificate .invalid .params)]
+  · rfl
+  · have ht : checkInner env { f with exts := es } = tailCheck env { f with exts := es } :=
+      checkInner_with_tail env f c f.eku es
+    rw [ht, tailCheck_of_ekuGood _ _ _ (ekuGood_ok_of env { f with exts := es } e he h1 h2 h3)]
+    exact extPart_params { f with exts := es } c.notCa true hcs (Or.inr h)
+
+/-- A CA certificate that is otherwise fine (it has a subject key identifier, which the profile
+demands of CAs) is turned away by the end-entity test of the public function. -/
+theorem ca_only_code (env : Env) (f : CertFacts) (c : Conforming env f) (hski : ∃ x ∈ f.exts, isSki x = true) :
+    checkEndEntity env { f with isCa := true } = .err .invalidCertificate .invalid .endEntityIsCa := by
+  obtain ⟨h1, h2, h3, h4, h5, _⟩ := conforming_blocks env f c
+  obtain ⟨e, he, hany, hal, hb⟩ := c.eku
+  have hin : checkInner env { f with isCa := true } = none := by
+    rw [inner_of_tail env { f with isCa := true } h1 h2 h3 h4 h5,
+      tailCheck_of_ekuGood _ _ _ (ekuGood_ok_of env { f with isCa := true } e he hany hal hb)]
+    unfold extPart
+    rw [extLoop_spec]
+    have ha : f.exts.any isAki = true := (any_iff _ _).2 c.aki
+    have hk : f.exts.any kuUsable = true := (any_iff _ _).2 c.keyUsage
+    have hs : f.exts.any isSki = true := (any_iff _ _).2 hski
+    have hu : f.exts.any unhandledCritical = false := (not_any_iff _ _).2 c.noUnhandledCritical
+    simp [finalFlags, ha, hk, hs, hu]
+  unfold checkEndEntity checkProfile
+  rw [hin]
+  simp [c.parses]
+
+/-- No log statement other than the validity-window one uses `signingCredential.expired`. -/
+def Rej.notExpired (r : Rej) : Prop := ∀ rl, r.logged ≠ some (.expired, rl)
+
+theorem pssCheck_notExpired (f : CertFacts) (r : Rej) (h : pssCheck f = some r) : r.notExpired := by
+  intro rl
+  unfold pssCheck at h
+  repeat' split at h
+  all_goals simp_all [rej, silent]
+  all_goals (subst h; simp)
+
+theorem curveCheck_notExpired (f : CertFacts) (r : Rej) (h : curveCheck f = some r) : r.notExpired := by
+  intro rl
+  unfold curveCheck at h
+  repeat' split at h
+  all_goals simp_all [rej, silent]
+  all_goals (subst h; simp)
+
+theorem rsaCheck_notExpired (f : CertFacts) (r : Rej) (h : rsaCheck f = some r) : r.notExpired := by
+  intro rl
+  unfold rsaCheck at h
+  repeat' split at h
+  all_goals simp_all [rej, silent]
+  all_goals (subst h; simp)
+
+theorem idCheck_notExpired (f : CertFacts) (r : Rej) (h : idCheck f = some r) : r.notExpired := by
+  intro rl
+  unfold idCheck at h
+  repeat' split at h
+  all_goals simp_all [rej, silent]
+  all_goals (subst h; simp)
+
+theorem ekuGood_notExpired (env : Env) (f : CertFacts) (r : Rej) (h : ekuGood env f = .error r) :
+    r.notExpired := by
+  intro rl
+  unfold ekuGood at h
+  repeat' split at h
+  all_goals simp_all [rej, silent]
+  all_goals (subst h; simp)
+
+theorem extPart_notExpired (f : CertFacts) (b : Bool) (r : Rej) (h : extPart f b = some r) :
+    r.notExpired := by
+  intro rl
+  unfold extPart at h
+  cases hl : extLoop f.isCa f.exts {} with
+  | none => rw [hl] at h; simp [rej] at h; subst h; simp
+  | some fl =>
+    rw [hl] at h
+    simp only [finalFlags] at h
+    have hr : r = rej .invalidCertificate .invalid .params := by
+      repeat' split at h
+      all_goals simp_all [rej]
+    subst hr
+    simp [rej]
+
+theorem tailCheck_notExpired (env : Env) (f : CertFacts) (r : Rej) (h : tailCheck env f = some r) :
+    r.notExpired := by
+  unfold tailCheck at h
+  cases he : ekuGood env f with
+  | error e =>
+    rw [he] at h
+    simp only [Option.some.injEq] at h
+    subst h
+    exact ekuGood_notExpired env f _ he
+  | ok b =>
+    rw [he] at h
+    exact extPart_notExpired f b r h
+
+theorem headCheck_expired (env : Env) (f : CertFacts) (r : Rej) (rl : Rule)
+    (h : headCheck env f = some r) (hl : r.logged = some (.expired, rl)) :
+    f.parses = true ∧ f.version = 2 ∧ validAt f (signingTime env) = false ∧
+      r = rej .certificateNotValidAtTime .expired .expired := by
+  unfold headCheck at h
+  cases hp : f.parses
+  · simp [hp, rej] at h; subst h; simp at hl
+  · by_cases hv : f.version = 2
+    · cases hva : validAt f (signingTime env)
+      · simp [hp, hv, hva] at h
+        exact ⟨rfl, hv, rfl, h.symm⟩
+      · cases hs : sigAlgAccepted f.sigAlg
+        · simp [hp, hv, hva, hs, rej] at h; subst h; simp at hl
+        · simp [hp, hv, hva, hs] at h
+    · simp [hp, hv, rej] at h; subst h; simp at hl
+
+/-- **`signingCredential.expired` is reported for the validity window only**: no other rule —
+and no parse failure — ever yields that code. -/
+theorem expired_code_only_for_window (env : Env) (f : CertFacts) (k : ErrKind) (r : Rule)
+    (h : checkEndEntity env f = .err k .expired r) :
+    f.parses = true ∧ f.version = 2 ∧ validAt f (signingTime env) = false ∧
+      k = .certificateNotValidAtTime ∧ r = .expired := by
+  cases hin : checkInner env f with
+  | none =>
+    unfold checkEndEntity checkProfile at h
+    rw [hin] at h
+    simp only at h
+    split at h
+    · cases h
+    · split at h <;> cases h
+  | some rj =>
+    rw [checkEndEntity_of_inner env f rj hin] at h
+    obtain ⟨k', l⟩ := rj
+    cases l with
+    | none => simp at h
+    | some cr =>
+      obtain ⟨c', r'⟩ := cr
+      simp only [Res.err.injEq] at h
+      obtain ⟨hk, hc, hr⟩ := h
+      subst hc
+      rw [← hk, ← hr]
+      -- which block produced it
+      unfold checkInner at hin
+      cases h1 : headCheck env f with
+      | some r1 =>
+        rw [h1] at hin
+        simp only [Option.or] at hin
+        cases hin
+        obtain ⟨a, b, c, d⟩ := headCheck_expired env f _ r' h1 rfl
+        simp only [rej, Rej.mk.injEq, Option.some.injEq, Prod.mk.injEq] at d
+        exact ⟨a, b, c, d.1, d.2.2⟩
+      | none =>
+        rw [h1] at hin
+        simp only [Option.or] at hin
+        exfalso
+        cases h2 : pssCheck f with
+        | some r2 => rw [h2] at hin; cases hin; exact pssCheck_notExpired f _ h2 r' rfl
+        | none =>
+          rw [h2] at hin
+          cases h3 : curveCheck f with
+          | some r3 => rw [h3] at hin; cases hin; exact curveCheck_notExpired f _ h3 r' rfl
+          | none =>
+            rw [h3] at hin
+            cases h4 : rsaCheck f with
+            | some r4 => rw [h4] at hin; cases hin; exact rsaCheck_notExpired f _ h4 r' rfl
+            | none =>
+              rw [h4] at hin
+              cases h5 : idCheck f with
+              | some r5 => rw [h5] at hin; cases hin; exact idCheck_notExpired f _ h5 r' rfl
+              | none =>
+                rw [h5] at hin
+                exact tailCheck_notExpired env f _ hin r' rfl
+
+/-! ### Ignore mode -/
+
+/-- **The ignore-mode hole, stated**: with `Verifier::IgnoreProfileAndTrustPolicy` the profile
+outcome leaves no trace — a certificate the profile rejects still yields state Valid when the
+signature verifies. (`verify_cose` selects this mode only for `cert_check = false`, which
+`Store::verify_store` passes for *ingredient* manifests when `verify.check_ingredient_trust` is
+off; the active manifest is always checked with `cert_check = true`, so for it `mode ≠ .ignore`
+— the hypothesis of `rejected_never_valid` — always holds. The CAWG X.509 identity validators use
+this mode too.) -/
+theorem ignore_mode_accepts_rejected (k : ErrKind) (c : Code) (r : Rule) (trust : Trust) :
+    C04.state (resultsOf (signatureCodes .ignore (.err k c r) trust true)) = .valid ∧
+    (signatureCodes .ignore (.err k c r) trust true).failure = [] := by
+  have h : signatureCodes .ignore (.err k c r) trust true = signatureCodes .ignore .ok trust true := rfl
+  rw [h]
+  cases trust <;> exact ⟨by decide, rfl⟩
 
 /-! ### Non-vacuity -/
 
@@ -615,5 +1242,22 @@ example : checkEndEntity { now := 50 }
     = .err .invalidCertificate .invalid .kuCertSign := by decide
 example : C04.state (resultsOf (signatureCodes .trustPolicy
     (checkEndEntity { now := 50 } { exConforming with subjectUid := true }) .trusted true)) = .invalid := by decide
+
+example : checkEndEntity { now := 50 } { exConforming with isCa := true }
+    = .err .invalidCertificate .invalid .endEntityIsCa :=
+  ca_only_code _ _ ((accepted_iff_conforming _ _).1 (by decide)) ⟨⟨.ski, false⟩, by decide, rfl⟩
+example : checkEndEntity { now := 50 } { exConforming with exts := [⟨.keyUsage true false false, true⟩] }
+    = .err .invalidCertificate .invalid .params :=
+  extension_flags_only_code _ _ ((accepted_iff_conforming _ _).1 (by decide)) _ (by decide) (Or.inl (by decide))
+example : checkEndEntity { now := 50 } { exConforming with spkiAlg := .rsa, rsaKeyOk := true, rsaBits := 2047 }
+    = .err .invalidCertificate .invalid .rsaBits :=
+  short_rsa_key_only_code _ _ ((accepted_iff_conforming _ _).1 (by decide)) .rsa (Or.inl rfl) 2047 (by decide)
+example : ¬ StatementViolation { now := 50 } exConforming ∧ ¬ StructuralDefect exConforming :=
+  (accepted_iff_no_violation _ _).1 (by decide)
+example : StatementViolation { now := 50 } exNonRepudiationOnly → False :=
+  ((accepted_iff_no_violation _ _).1 (by decide)).1
+example : checkInner { now := 50 } { exConforming with sigAlg := .pss, pss := .malformed } = some (silent .invalidCertificate) := by decide
+example : C04.state (resultsOf (signatureCodes .ignore
+    (checkEndEntity { now := 50 } { exConforming with subjectUid := true }) .untrusted true)) = .valid := by decide
 
 end C2pa.C06
